@@ -62,6 +62,15 @@ reg('C15',
     'scripted deterministic environment stands for any environment; wrapped step is atomic; brax.v1 stubbed',
     'DESIGN.md section 4 C15')
 
+MJ_NOTE = 'MuJoCo 3.13 (float64 C library) compiled from the generator\'s own XML string is the trusted reference; jax_enable_x64'
+
+reg('C01',
+    'property-based testing (Hypothesis model generator): differential against MuJoCo forward kinematics, plus a sweep over all 196 ordered forest shapes with <= 6 links',
+    'No counter-example among generated articulated models x states: link world positions/rotations equal MuJoCo at 1e-9 and, for links inside the claim, '
+    'world velocities at 1e-8 (measured agreement 1e-15). Every ordered forest topology with up to 6 links is exercised at least once per run. '
+    'Velocities of stacked/offset links are measured and matched against the recorded known finding. Sampling, not proof.',
+    MJ_NOTE, 'DESIGN.md section 4 C01')
+
 PENDING = {}
 
 
